@@ -1,6 +1,7 @@
 //! C10 (partial): VariadicColumnMultiset of the real `variadics` crate (path dependency) against a multiset-of-tuples oracle.
 //! VariadicHashSet / VariadicCountedHashSet own a hashbrown table: NOT covered (outside CBMC's reach).
-#![allow(dead_code, clippy::all)]
+#![allow(dead_code, unused_imports, clippy::all)]
+pub mod extracted;
 #[cfg(kani)]
 mod harness {
     use variadics::variadic_collections::{VariadicCollection, VariadicColumnMultiset};
